@@ -73,19 +73,19 @@ def signature(prop, mode, clause, idx, rec):
         odd_layout = any((it['k'] == 'align' and it['n'] % 2 == 1 and it['n'] > 1) or (it['k'] in ('data', 'gap') and it['n'] % 2 == 1) for it in prog)
         if odd_layout and eit and eit['k'] in ('br', 'jal', 'pbr', 'pj') and 'multiple of N' in sig['error'].replace('muliple', 'multiple'):
             sig['cause'] = 'odd-layout-parity'
-        # a li of a label expression that took its one-instruction form on a value which the later shrinking of other items
-        # pushed out of the 12-bit range: only when the value in the UNCOMPRESSED layout sits within reach of the range's edge
-        if eit and eit['k'] == 'lil' and rec['nc']['status'] == 'ok' and 'bit immediate must be between' in (c.get('msg') or ''):
+        # a 12-bit immediate (a plain one, or the one-instruction form a li took) whose label-dependent value fits in the uncompressed
+        # layout and not in the compressed one: only when the value in the UNCOMPRESSED layout sits within reach of the range's edge
+        if eit and eit['k'] in ('lil', 'imml') and rec['nc']['status'] == 'ok' and '12-bit immediate must be between' in (c.get('msg') or ''):
             sizes, labels = rec['nc']['sizes'], rec['nc']['labels']
             if sizes[el - 1] == 4:
                 pos = sum(sizes[:el - 1])
                 f, n = eit['f'], eit['n']
                 v = {'bare': lambda: labels[eit['t']], 'pos': lambda: n + labels[eit['t']], 'off': lambda: labels[eit['t']] - pos,
-                     'offk': lambda: n - pos}.get(f, lambda: None)()
+                     'offk': lambda: n - pos, 'neg': lambda: n - labels[eit['t']]}.get(f, lambda: None)()
                 # every item can move a label by at most 6 bytes between the two layouts (li 8 -> 2); aligns by less than their size
                 reach = sum(6 if it['k'] in INSTR_LIKE else (it['n'] if it['k'] == 'align' else 0) for it in prog)
                 if v is not None and -2048 <= v <= 2047 and (v - reach < -2048 or v + reach > 2047):
-                    sig['cause'] = 'li-decided-early'
+                    sig['cause'] = 'label-value-at-range-edge'
     return sig
 
 
